@@ -96,6 +96,9 @@ theorem equivalent_symmetric (a b : Sig) : a.equivalent b = b.equivalent a := by
     one tuple; a name that is re-bound to a list before the loop; a list used for membership only) -/
 def reviewedSetIterations : List (String × String) :=
   [("grid.py", "metric_axes"),                                   -- axes_not_found: message of the KeyError
+   -- every element is checked and the list of dimensions is discarded: the order decides only WHICH
+   -- of two refusals is raised for a request that is ill-posed twice (unknown axis AND missing dimension)
+   ("grid.py", "self._get_dims_from_axis(array, frozenset(axes))"),
    ("grid.py", "overlap_metrics"),                               -- frozenset(*s): s holds one tuple per registry key
    ("grid.py", "possible_metric_vars"),                          -- re-bound to a list (flow-insensitive analysis)
    ("grid_ufunc.py", "list(kwargs.keys() - _allowedkwargs)"),    -- message of the TypeError
